@@ -44,7 +44,7 @@ Definition rs_set_user (s : rstate) u := mkRState (r_vote s) (r_last s) (r_commi
 (* the checks of update_vote / append / commit, without mutation (RaftLogState::validate) *)
 Definition rs_validate (s : rstate) (r : record) : option err :=
   match r with
-  | RVote v => if opair_leb (r_vote s) (Some v) then None else Some EVoteReversal
+  | RVote v => if ovote_accepts (r_vote s) v then None else Some EVoteReversal
   | RAppend id _ =>
     if opair_leb (Some id) (r_last s) then Some ELogIdReversal
     else match r_last s with
